@@ -312,15 +312,15 @@ def lawfuzz():
 
 def c09(tier):
     if tier == 'quick':
-        return [filterproto(1), filt('atoms', 'C09', 2, 1, 'both', 'all'), filt('pairs', 'C09', 2, 2, 'arr', 'two'), lawfuzz()]
+        return [filterproto(1), filt('atoms', 'C09', 2, 1, 'both', 'all'), filt('pairs', 'C09', 2, 2, 'arr', 'two'), filt('deep-eq', 'C09', 2, 1, 'both', 'deep'), lawfuzz()]
     return [filterproto(2, 3600), filterproto_mutant(), filt('atoms', 'C09', 3, 1, 'both', 'all', 7200), filt('pairs', 'C09', 2, 2, 'both', 'all', 7200),
-            filt('triples', 'C09', 2, 3, 'arr', 'two', 7200), lawfuzz()]
+            filt('triples', 'C09', 2, 3, 'arr', 'two', 7200), filt('deep-eq', 'C09', 3, 1, 'both', 'deep', 7200), lawfuzz()]
 
 
 def c10(tier):
     if tier == 'quick':
-        return [filt('atoms', 'C10', 2, 1, 'both', 'all'), filt('pairs', 'C10', 1, 2, 'both', 'all'), traceB_eval(4000, 60000, 'C10', EVAL_ATTR)]
-    return [filt('atoms', 'C10', 3, 1, 'both', 'all', 7200), filt('pairs', 'C10', 2, 2, 'both', 'all', 7200), traceB_eval(4000, 60000, 'C10', EVAL_ATTR)]
+        return [filt('atoms', 'C10', 2, 1, 'both', 'all'), filt('pairs', 'C10', 1, 2, 'both', 'all'), filt('deep-eq', 'C10', 2, 1, 'both', 'deep'), traceB_eval(4000, 60000, 'C10', EVAL_ATTR)]
+    return [filt('atoms', 'C10', 3, 1, 'both', 'all', 7200), filt('pairs', 'C10', 2, 2, 'both', 'all', 7200), filt('deep-eq', 'C10', 3, 1, 'both', 'deep', 7200), traceB_eval(4000, 60000, 'C10', EVAL_ATTR)]
 
 
 def conc_model(label, ng, prog, timeout=600):
